@@ -13,6 +13,7 @@
 -/
 import Aqv.Base.Proto
 import Aqv.Model.Chain
+import Aqv.Model.ChainMixed
 namespace Aqv.ChainReplay
 open Aqv.Chain Aqv.Proto
 
@@ -95,6 +96,17 @@ def hrender (t : Tree) (res : String) (s : HSt) : String :=
   "/c=" ++ renderCanon t s.canon ++ "/td=" ++ renderTd t s.td ++ "/lk=" ++
   "/st=" ++ idsWhere t (fun i => (s.store i).isSome) ++ "/rc=" ++ g ++ "/sa=" ++ g ++ "/od=" ++ g
 
+/-- the dump of a chain fed through both import paths, restricted to what the td-level model `MSt` describes -/
+def mrender (t : Tree) (res : String) (s : MSt) : String :=
+  "e=" ++ res ++ "/h=" ++ toString s.head ++ "/hh=" ++ toString s.hhead ++ "/td=" ++ renderTd t s.td ++
+  "/st=" ++ idsWhere t (fun i => (s.hdr i).isSome) ++ "/bk=" ++ idsWhere t s.blk
+
+/-- the same fields of an observed dump -/
+def projMixed (d : String) : String :=
+  joinWith "/" ((d.splitOn "/").filter (fun f =>
+    f.startsWith "e=" || f.startsWith "h=" || f.startsWith "hh=" || f.startsWith "td=" || f.startsWith "st=" ||
+    f.startsWith "bk="))
+
 /-- fields of a dump compared for C02 (fork choice, total difficulties, what is stored / validated) -/
 def projC02 (d : String) : String :=
   joinWith "/" ((d.splitOn "/").filter (fun f =>
@@ -140,6 +152,29 @@ def importChainND (t : Tree) (s : St) (chain : List Blk) : List (St × String) :
 def hImportChainND (t : Tree) (s : HSt) (chain : List Blk) : List (HSt × String) :=
   let outs := (boolVecs (min chain.length 8)).map fun v => hImportChain s chain v
   dedupBy (fun x => hrender t x.2 x.1) (outs.map fun (o, i) =>
+    match o.err with
+    | some .modelPanic => (o.st, "panic")
+    | some e => (o.st, errStr e ++ "@" ++ toString i)
+    | none => (o.st, "ok"))
+
+/-- all outcomes of `mImportChain` over the coin and over `updateHeads` -/
+def mImportChainND (t : Tree) (s : MSt) (chain : List Blk) : List (MSt × String) :=
+  let rec go (cands : List MSt) (bs : List Blk) (i : Nat) (fin : List (MSt × String)) : List (MSt × String) :=
+    match bs with
+    | [] => fin ++ cands.map (fun c => (c, "ok"))
+    | b :: rest =>
+      let hhs : List (Option Nat) := none :: (List.range (b.number + 1)).map some
+      let outs := cands.flatMap fun c =>
+        hhs.flatMap fun hh => [false, true].map fun coin => mImportOne c b coin hh
+      let errs := outs.filterMap fun o => o.err.map fun e =>
+        (o.st, if e == .modelPanic then "panic" else errStr e ++ "@" ++ toString i)
+      let oks := dedupBy (mrender t "") ((outs.filter (fun o => o.err.isNone)).map (·.st))
+      go oks rest (i + 1) (fin ++ errs)
+  go [s] (contigPrefix chain) 0 []
+
+def mImportHeadersND (t : Tree) (s : MSt) (chain : List Blk) : List (MSt × String) :=
+  let outs := (boolVecs (min chain.length 8)).map fun v => mImportHeaders s chain v
+  dedupBy (fun x => mrender t x.2 x.1) (outs.map fun (o, i) =>
     match o.err with
     | some .modelPanic => (o.st, "panic")
     | some e => (o.st, errStr e ++ "@" ++ toString i)
@@ -251,6 +286,7 @@ def specC02 (t : Tree) (headers importsOnly : Bool) (d : Dump) : Option String :
 inductive Cands
   | full (cs : List St)
   | hdrs (cs : List HSt)
+  | mixed (cs : List MSt)
 
 def stepND (t : Tree) (c : Cands) (op : Op) : List (Cands × String) :=
   match c, op with
@@ -268,6 +304,10 @@ def stepND (t : Tree) (c : Cands) (op : Op) : List (Cands × String) :=
       let o := hSetHead s n
       (.hdrs [o.st], hrender t (match o.err with | some e => errStr e | none => "ok") o.st)
   | .hdrs cs, .reopen => cs.map fun s => (.hdrs [s], hrender t "ok" s)
+  | .mixed cs, .ins ids =>
+    (cs.flatMap fun s => mImportChainND t s (blocksOf t ids)).map fun (s, r) => (.mixed [s], mrender t r s)
+  | .mixed cs, .hdr ids =>
+    (cs.flatMap fun s => mImportHeadersND t s (blocksOf t ids)).map fun (s, r) => (.mixed [s], mrender t r s)
   | _, _ => []
 
 def mergeCands (xs : List Cands) : Cands :=
@@ -275,10 +315,12 @@ def mergeCands (xs : List Cands) : Cands :=
     match acc, c with
     | .full a, .full b => .full (a ++ b)
     | .hdrs a, .hdrs b => .hdrs (a ++ b)
-    | a, _ => a) (match xs with | (.hdrs _) :: _ => .hdrs [] | _ => .full [])
+    | .mixed a, .mixed b => .mixed (a ++ b)
+    | a, _ => a) (match xs with | (.hdrs _) :: _ => .hdrs [] | (.mixed _) :: _ => .mixed [] | _ => .full [])
 
 /-- replay; returns (model output, agreed?, index of first mismatch, spec verdict on the Go dump at the mismatch) -/
-def replay (prop : String) (t : Tree) (headers : Bool) (c0 : Cands) (ops : List Op) (dumps : List String) :
+def replay (prop : String) (t : Tree) (headers : Bool) (c0 : Cands) (ops : List Op) (dumps : List String)
+    (mixed : Bool := false) :
     String × Bool × Option String :=
   let rec go (c : Cands) (ops : List Op) (dumps : List String) (k : Nat) (importsOnly : Bool) (acc : List String) :
       String × Bool × Option String :=
@@ -288,13 +330,15 @@ def replay (prop : String) (t : Tree) (headers : Bool) (c0 : Cands) (ops : List 
     | op :: ops', d :: dumps' =>
       let importsOnly := importsOnly && (match op with | .setHead _ => false | _ => true)
       let outs := stepND t c op
-      let good := outs.filter fun x => proj prop x.2 == proj prop d
+      let good := outs.filter fun x => if mixed then x.2 == projMixed d else proj prop x.2 == proj prop d
       match good with
       | [] =>
         let shown := match outs with | x :: _ => x.2 | [] => "no-model-outcome"
         let why := match parseDump d with
           | none => some "unparsable-dump"
-          | some pd => if prop == "C02" then specC02 t headers importsOnly pd else specC03 t headers pd
+          | some pd =>
+            if mixed then specC02 t true false pd
+            else if prop == "C02" then specC02 t headers importsOnly pd else specC03 t headers pd
         (joinWith ";" acc.reverse ++ ";mismatch@" ++ toString k ++ ":" ++ shown, false, why)
       | _ =>
         let keyOf : Cands × String → String := fun x => x.2
@@ -329,12 +373,14 @@ def handle (prop : String) (l : String) : String :=
         else
           let ops := ops.filterMap id
           let headers := mode == "headers"
-          let c0 := if headers then Cands.hdrs [hinit g] else Cands.full [init g (mode == "archive")]
+          let mixed := mode == "mixed"
+          let c0 := if mixed then Cands.mixed [minit g]
+            else if headers then Cands.hdrs [hinit g] else Cands.full [init g (mode == "archive")]
           let dumps := goOut.splitOn ";"
           if dumps.length != ops.length then
             "dump-count\tspec-reject:harness-emitted-" ++ toString dumps.length ++ "-dumps-for-" ++ toString ops.length ++ "-ops"
           else
-            let (m, ok, why) := replay prop t headers c0 ops dumps
+            let (m, ok, why) := replay prop t headers c0 ops dumps mixed
             if ok then goOut ++ "\tagree"
             else
               match why with
